@@ -10,7 +10,7 @@ from ..absvals import Const, Sym, PredV, LinV, Ref, ElemV, TupleV, HObj, HDict, 
 from ..front import AnalysisError
 from ..harness import (Explorer, make_belief_base, make_epistemic_state, make_query, A, B, QUERY, material, verification,
                        falsification, fn_label, decided, rc2_state, view, KEYS_D, canon_items, canon_item, show_items,
-                       RC2_SUMMARIES, RC2_HOOKS, wcnf_view, truth_rows, returned_bool)
+                       RC2_SUMMARIES, RC2_HOOKS, wcnf_view, truth_rows, returned_bool, early_exits)
 from . import wrappers
 
 CI = "inference.c_inference.CInference"
@@ -381,6 +381,11 @@ def encoding_relation(rep, ex: Explorer, cls=CI):
     for p in paths:
         if p.outcome[0] != "return":
             continue
+        for lev, case in early_exits(p, KEYS_D):
+            if case.sig[0] in ("break", "return"):
+                g = " ∧ ".join(show_pred(k if v else ("not", k))[:60] for k, v in case.guard) or "always"
+                rep.violation("C.relations", f"{site}:{lev.node.lineno}", "every conditional", "every conditional with a falsifying world gets its acceptance constraint: the loop over the conditionals runs to its end",
+                              extracted=f"the loop is left by {case.sig[0]} at a conditional with {g}: the conditionals after it get no constraint", required="skip that conditional only (continue)", function=site)
         for ev, Q in iter_events(p.events):
             if ev.kind == "minima_encoding" and Q:
                 loop_ev, case = Q[-1]
